@@ -38,6 +38,10 @@ func main() {
 	case "ledger":
 		wrapGenesis = os.Args[5] == "wrap"
 		err = ledgerRandom(num(2), int(num(3)), int(num(4)), os.Args[5] == "big" || wrapGenesis, enc)
+	case "replay":
+		err = replayMode(num(2), int(num(3)), enc)
+	case "multi":
+		err = multiRandom(num(2), int(num(3)), int(num(4)), enc)
 	case "ledger-replay":
 		var scripts []LedgerScript
 		in, e := os.Open(os.Args[2])
